@@ -370,7 +370,7 @@ proof fn diff_indices_props(a: Seq<Seq<u8>>, b: Seq<Seq<u8>>, n: int)
     requires rem_ok(*assumed_file_state), mt(*old(w)),     //# O-D-shortcut-pre [C18]
     ensures *final(w) == *old(w),
         // the mtime shortcut returns exactly what hashing the file returns (C18), and that is the true hash (C07)
-        res matches Ok(Some(t)) ==> (!old(w).dirs.contains(path@) ==> file_tk(*old(w), path@, t)),    //# O-D-shortcut-ticket [C18,C07,C01]
+        res matches Ok(Some(t)) ==> (!old(w).dirs.contains(path@) ==> file_tk(*old(w), path@, t)),    //# O-D-shortcut-ticket [C18,C07,C01,C08,C10]
         res matches Ok(None) ==> !old(w).files.contains_key(path@) && !old(w).dirs.contains(path@),  //# O-D-shortcut-none [C18]
 //@ end
 
@@ -381,7 +381,7 @@ proof fn diff_indices_props(a: Seq<Seq<u8>>, b: Seq<Seq<u8>>, n: int)
 //@ spec
     requires rem_ok(*assumed_file_state), mt(*old(w)), !old(w).dirs.contains(path@),     //# O-D-shortcut-state-pre [C18]
     ensures *final(w) == *old(w),
-        res matches Ok(st) ==> state_of(*old(w), path@, st),         //# O-D-shortcut-state [C18,C07,C01]
+        res matches Ok(st) ==> state_of(*old(w), path@, st),         //# O-D-shortcut-state [C18,C07,C01,C08,C10]
         res matches Err(GetCurrentFileInfoError::TargetFileNotFound(p, _)) ==> p@ == path@,   //# O-D-missing-names [C04]
         !old(w).files.contains_key(path@) ==> res matches Err(GetCurrentFileInfoError::TargetFileNotFound(_, _)),                 //# O-D-missing-detected [C04]
 //@ end
